@@ -496,7 +496,10 @@ fn op_name(op: &Op) -> &'static str {
     }
 }
 
-const NON_RENDER_DEADLINE: f64 = 5.0;
+// generous on purpose: CPU time of a thread is inflated several-fold when the machine is heavily
+// oversubscribed (page-fault and memory-bandwidth contention); the driver additionally requires a
+// timeout to reproduce in a fresh process before it is reported
+const NON_RENDER_DEADLINE: f64 = 15.0;
 const RENDER_DEADLINE: f64 = 120.0;
 
 pub fn execute(seed: u64, sc: &Scenario, stats: &mut Stats) -> Result<(), Violation> {
